@@ -139,7 +139,7 @@ Definition x86_masked_get : ctx_table :=
      ct_get := ([n_esp], AAnd (ALoc l_x86_esp) (ANot (ALit 3) 32)) :: ct_get ctx_x86;
      ct_set := ct_set ctx_x86; ct_set_val := ct_set_val ctx_x86;
      ct_memo := ct_memo ctx_x86; ct_memo_tbl := ct_memo_tbl ctx_x86; ct_memo_cmp := ct_memo_cmp ctx_x86; ct_groups := ct_groups ctx_x86;
-     ct_valid_all := ct_valid_all ctx_x86; ct_valid_default := ct_valid_default ctx_x86; ct_get_cond := ct_get_cond ctx_x86;
+     ct_valid_all := ct_valid_all ctx_x86; ct_valid_default := ct_valid_default ctx_x86; ct_get_cond := ct_get_cond ctx_x86; ct_get_val := ct_get_val ctx_x86; ct_md_get_val := ct_md_get_val ctx_x86;
      ct_fmt_prefix := ct_fmt_prefix ctx_x86; ct_fmt_zero := ct_fmt_zero ctx_x86; ct_fmt_mul := ct_fmt_mul ctx_x86;
      ct_sp_name := ct_sp_name ctx_x86; ct_ip_name := ct_ip_name ctx_x86;
      ct_sp_acc := ct_sp_acc ctx_x86; ct_ip_acc := ct_ip_acc ctx_x86;
@@ -165,7 +165,7 @@ Definition x86_loose_validity : ctx_table :=
      ct_set := ct_set ctx_x86; ct_set_val := ct_set_val ctx_x86;
      ct_memo := ct_memo ctx_x86; ct_memo_tbl := ct_memo_tbl ctx_x86; ct_memo_cmp := ct_memo_cmp ctx_x86; ct_groups := ct_groups ctx_x86;
      ct_valid_all := ct_valid_all ctx_x86; ct_valid_default := BOr (BVar v_contains) (BLit true);
-     ct_get_cond := ct_get_cond ctx_x86;
+     ct_get_cond := ct_get_cond ctx_x86; ct_get_val := ct_get_val ctx_x86; ct_md_get_val := ct_md_get_val ctx_x86;
      ct_fmt_prefix := ct_fmt_prefix ctx_x86; ct_fmt_zero := ct_fmt_zero ctx_x86; ct_fmt_mul := ct_fmt_mul ctx_x86;
      ct_sp_name := ct_sp_name ctx_x86; ct_ip_name := ct_ip_name ctx_x86;
      ct_sp_acc := ct_sp_acc ctx_x86; ct_ip_acc := ct_ip_acc ctx_x86;
@@ -190,7 +190,7 @@ Definition amd64_nocase : ctx_table :=
   {| ct_name := ct_name ctx_amd64; ct_variant := ct_variant ctx_amd64; ct_width := ct_width ctx_amd64;
      ct_registers := ct_registers ctx_amd64; ct_get := ct_get ctx_amd64; ct_set := ct_set ctx_amd64; ct_set_val := ct_set_val ctx_amd64;
      ct_memo := ct_memo ctx_amd64; ct_memo_tbl := ct_memo_tbl ctx_amd64; ct_memo_cmp := 1; ct_groups := ct_groups ctx_amd64;
-     ct_valid_all := ct_valid_all ctx_amd64; ct_valid_default := ct_valid_default ctx_amd64; ct_get_cond := ct_get_cond ctx_amd64;
+     ct_valid_all := ct_valid_all ctx_amd64; ct_valid_default := ct_valid_default ctx_amd64; ct_get_cond := ct_get_cond ctx_amd64; ct_get_val := ct_get_val ctx_amd64; ct_md_get_val := ct_md_get_val ctx_amd64;
      ct_fmt_prefix := ct_fmt_prefix ctx_amd64; ct_fmt_zero := ct_fmt_zero ctx_amd64; ct_fmt_mul := ct_fmt_mul ctx_amd64;
      ct_sp_name := ct_sp_name ctx_amd64; ct_ip_name := ct_ip_name ctx_amd64;
      ct_sp_acc := ct_sp_acc ctx_amd64; ct_ip_acc := ct_ip_acc ctx_amd64;
@@ -261,7 +261,7 @@ Definition arm_thumb_masked : ctx_table :=
   {| ct_name := ct_name ctx_arm; ct_variant := ct_variant ctx_arm; ct_width := ct_width ctx_arm;
      ct_registers := ct_registers ctx_arm; ct_get := ct_get ctx_arm; ct_set := ct_set ctx_arm; ct_set_val := ct_set_val ctx_arm;
      ct_memo := ct_memo ctx_arm; ct_memo_tbl := ct_memo_tbl ctx_arm; ct_memo_cmp := ct_memo_cmp ctx_arm; ct_groups := ct_groups ctx_arm;
-     ct_valid_all := ct_valid_all ctx_arm; ct_valid_default := ct_valid_default ctx_arm; ct_get_cond := ct_get_cond ctx_arm;
+     ct_valid_all := ct_valid_all ctx_arm; ct_valid_default := ct_valid_default ctx_arm; ct_get_cond := ct_get_cond ctx_arm; ct_get_val := ct_get_val ctx_arm; ct_md_get_val := ct_md_get_val ctx_arm;
      ct_fmt_prefix := ct_fmt_prefix ctx_arm; ct_fmt_zero := ct_fmt_zero ctx_arm; ct_fmt_mul := ct_fmt_mul ctx_arm;
      ct_sp_name := ct_sp_name ctx_arm; ct_ip_name := ct_ip_name ctx_arm;
      ct_sp_acc := ct_sp_acc ctx_arm;
@@ -399,7 +399,7 @@ Definition x86_iter (some : names_src) (skip : Z) : ctx_table :=
      ct_registers := ct_registers ctx_x86; ct_get := ct_get ctx_x86;
      ct_set := ct_set ctx_x86; ct_set_val := ct_set_val ctx_x86;
      ct_memo := ct_memo ctx_x86; ct_memo_tbl := ct_memo_tbl ctx_x86; ct_memo_cmp := ct_memo_cmp ctx_x86; ct_groups := ct_groups ctx_x86;
-     ct_valid_all := ct_valid_all ctx_x86; ct_valid_default := ct_valid_default ctx_x86; ct_get_cond := ct_get_cond ctx_x86;
+     ct_valid_all := ct_valid_all ctx_x86; ct_valid_default := ct_valid_default ctx_x86; ct_get_cond := ct_get_cond ctx_x86; ct_get_val := ct_get_val ctx_x86; ct_md_get_val := ct_md_get_val ctx_x86;
      ct_fmt_prefix := ct_fmt_prefix ctx_x86; ct_fmt_zero := ct_fmt_zero ctx_x86; ct_fmt_mul := ct_fmt_mul ctx_x86;
      ct_sp_name := ct_sp_name ctx_x86; ct_ip_name := ct_ip_name ctx_x86;
      ct_sp_acc := ct_sp_acc ctx_x86; ct_ip_acc := ct_ip_acc ctx_x86;
@@ -548,7 +548,7 @@ Definition sparc_before_fix : ctx_table :=
   {| ct_name := ct_name ctx_sparc; ct_variant := ct_variant ctx_sparc; ct_width := ct_width ctx_sparc;
      ct_registers := ct_registers ctx_sparc; ct_get := ct_get ctx_sparc; ct_set := ct_set ctx_sparc; ct_set_val := ct_set_val ctx_sparc;
      ct_memo := []; ct_memo_tbl := ct_memo_tbl ctx_sparc; ct_memo_cmp := 0; ct_groups := [];
-     ct_valid_all := ct_valid_all ctx_sparc; ct_valid_default := ct_valid_default ctx_sparc; ct_get_cond := ct_get_cond ctx_sparc;
+     ct_valid_all := ct_valid_all ctx_sparc; ct_valid_default := ct_valid_default ctx_sparc; ct_get_cond := ct_get_cond ctx_sparc; ct_get_val := ct_get_val ctx_sparc; ct_md_get_val := ct_md_get_val ctx_sparc;
      ct_fmt_prefix := ct_fmt_prefix ctx_sparc; ct_fmt_zero := ct_fmt_zero ctx_sparc; ct_fmt_mul := ct_fmt_mul ctx_sparc;
      ct_sp_name := ct_sp_name ctx_sparc; ct_ip_name := ct_ip_name ctx_sparc;
      ct_sp_acc := ct_sp_acc ctx_sparc; ct_ip_acc := ct_ip_acc ctx_sparc; ct_iter_all := ct_iter_all ctx_sparc; ct_iter_some := ct_iter_some ctx_sparc; ct_next_slice := ct_next_slice ctx_sparc; ct_next_set := ct_next_set ctx_sparc;
